@@ -72,7 +72,15 @@ func C16(c *core.Ctx) {
 		}
 		for i, f := range files {
 			name := fmt.Sprintf("f%d.env", i+1)
-			fmt.Fprintf(&sb, "      - path: ./%s\n        required: %v\n", name, f.State != "missing-optional")
+			// the flag as a boolean, as a quoted string, and through a variable with a default (the schema admits all three)
+			req := fmt.Sprint(f.State != "missing-optional")
+			switch (n + i) % 3 {
+			case 1:
+				req = `"` + req + `"`
+			case 2:
+				req = `"${REQ_UNSET_` + fmt.Sprint(i) + `:-` + req + `}"`
+			}
+			fmt.Fprintf(&sb, "      - path: ./%s\n        required: %s\n", name, req)
 			if f.State == "present" {
 				body := fmt.Sprintf("OTHER%d=o%d\n", i+1, i+1)
 				if f.K.Set {
@@ -203,6 +211,24 @@ func C16(c *core.Ctx) {
 			g, h := sbv.Labels[x[0]]
 			if h != w.Set || g != w.V {
 				fail("layering:label of the second service", fmt.Sprintf("label %s of the second service = %q (present %v); the layering rules define %q (present %v)", x[0], g, h, w.V, w.Set))
+			}
+		}
+		// labels are layered whether or not the services' environment is resolved (SkipResolveEnvironment concerns `environment` only)
+		if n%3 == 0 {
+			optsNoEnv := append(append([]func(*loader.Options){}, opts...), func(o *loader.Options) { o.SkipResolveEnvironment = true })
+			pn, errn := loader.LoadWithContext(context.Background(), types.ConfigDetails{WorkingDir: dir, Environment: env,
+				ConfigFiles: []types.ConfigFile{{Filename: filepath.Join(dir, "compose.yaml"), Content: []byte(doc)}}}, optsNoEnv...)
+			c.Eval(key+" [environment resolution off]", len(lfiles) > 0)
+			if errn != nil {
+				fail("labels-without-environment-resolution", "with SkipResolveEnvironment the load fails: "+errn.Error())
+			} else {
+				sn := pn.Services["a"]
+				if g, h := sn.Labels["K"]; h != lw.Set || g != lw.V {
+					fail("labels-without-environment-resolution", fmt.Sprintf("with SkipResolveEnvironment label K = %q (present %v); the layering rules define %q (present %v)", g, h, lw.V, lw.Set))
+				}
+				if discard && len(sn.LabelFiles) != 0 {
+					fail("labels-without-environment-resolution", "with SkipResolveEnvironment and the discard option the label_file references survive")
+				}
 			}
 		}
 		if discard {
